@@ -151,6 +151,27 @@ def main(tier, seed, replay=None):
         "empty_lists": "fn f()\n{\n\tvar t = [];\n\tvar s = S { };\n\tg();\n}\nstruct S\n{\n}\n",
     }.items():
         cases.append(("corpus", "special/%s.pn" % name, text))
+    # long expressions (balanced, so that no parser recurses deeply) in every position an expression can stand in: look-ahead
+    # windows and reservations of a closing token must not depend on the distance to it
+    def balanced(n, leaf="x"):
+        return leaf if n <= 1 else "(%s + %s)" % (balanced(n // 2, leaf), balanced(n - n // 2, leaf))
+    for n in (16, 40, 64, 65, 100, 128, 300, 1000):
+        e = balanced(n)
+        flat = " + ".join(["x"] * min(n, 64))
+        for pos, text in {
+            "if": "fn main()\n{\n\tif %s == 1\n\t{\n\t\tx = 2;\n\t}\n\telse\n\t{\n\t\tx = 3;\n\t}\n}\n",
+            "if_goto": "fn main()\n{\n\tif %s == 1\n\t\tgoto end;\n\tend:\n}\n",
+            "else_if": "fn main()\n{\n\tif x == 1\n\t{\n\t}\n\telse if %s > 2\n\t{\n\t}\n}\n",
+            "if_both_sides": "fn main()\n{\n\tif %s == %s\n\t{\n\t}\n}\n",
+            "init": "fn main()\n{\n\tvar y = %s;\n}\n", "index": "fn main()\n{\n\tvar y = a[%s];\n}\n",
+            "target_index": "fn main()\n{\n\ta[%s] = 1;\n}\n", "argument": "fn main()\n{\n\tf(1, %s, 2);\n}\n",
+            "return": "fn f() -> i32\n{\n\treturn: %s\n}\n", "array": "fn main()\n{\n\tvar y = [1, %s, 2];\n}\n",
+            "member": "fn main()\n{\n\tvar y = S { a: %s, b: 1 };\n}\n", "constant": "const C: i32 = %s;\n",
+            "array_length": "fn main()\n{\n\tvar y = |a| + %s;\n}\n", "cast": "fn main()\n{\n\tvar y = %s as u8;\n}\n",
+        }.items():
+            cases.append(("corpus", "special/long_%d_%s.pn" % (n, pos), text.replace("%s", e)))
+            if n <= 64:
+                cases.append(("corpus", "special/flat_%d_%s.pn" % (n, pos), text.replace("%s", flat)))
     for r in common.run_sharded(run_case, cases):
         if r.get("verdict") is None and "harness_error" not in r:
             run.merge_counters(r.get("cov"))
